@@ -12,7 +12,7 @@ from checks.sibcomp import WB, API, request, split_reply, vbits
 from vlib import paths
 from vlib.proto import hexs
 
-LEAN_TARGETS = ["LyModel.Props.C04", "LyModel.Props.C04Rb"]
+LEAN_TARGETS = ["LyModel.Props.C04", "LyModel.Props.C04Rb", "LyModel.Props.C04Mk"]
 AUDIT = "Audit/C04.lean"
 GENERATED = ["Consts"]
 ASSUMPTIONS = [
@@ -579,6 +579,9 @@ def run(cx):
     for sn in ("S1", "S2", "S3"):
         dm += [(sn, ops) for ops in dup_move_scripts(rng, schs[sn], cx.n(100, 1200))]
     law_scripts(cx, schs, dm, kind="law-dup-move", present=present)
+    rng = cx.sub_rng("multikey-diff")
+    differential_scripts(cx, schs, [("S4", ops) for ops in multikey_diff_scripts(rng, cx.n(400, 4000))], variant, kind="multikey",
+                         quick_search=(cx.tier == "quick"))
     rng = cx.sub_rng("multikey")
     law_scripts(cx, schs, [("S4", ops) for ops in multikey_scripts(rng, cx.n(400, 4000))], kind="law-multikey", present=present)
 
@@ -689,6 +692,77 @@ def multikey_scripts(rng, n):
         for _k in range(rng.randint(0, 3)):
             name, vals, i = rng.choice(made)
             ops.append(rng.choice(["unlink,%d" % i, "dup,%d,-,0" % i, "dup,%d,%s,0" % (i, "-" if name == "t2" else 1), "ins_child,%d,1" % i if name != "t2" else "unlink,%d" % i]))
+        out.append(ops)
+    return out
+
+
+def multikey_diff_scripts(rng, n):
+    """Differential family (schema S4): lists with two / three keys (system- and user-ordered, nested, top-level) created
+    through key predicates in schema order and in any other order (lyd_new_list2, lyd_new_path with and without a parent,
+    absolute and relative, existing prefixes, existing instances -> LY_EEXIST), non-key children, unlink / free / re-insert,
+    and lyd_find_sibling_val by the whole key tuple (predicates in any order, present and absent tuples); the model keeps the
+    key TUPLE of every instance and must produce the same return code, forest dump (key leaves in schema order, instances
+    sorted key by key, identities) and search result after every op."""
+    out = []
+
+    def kv(kt, small):
+        pool = [v for v in sibcomp.POOL[kt] if "'" not in v and v != ""] or ["1"]
+        return rng.choice(pool[:3] if small else pool)
+
+    def preds(name, vals, order=None):
+        ks = MK_LISTS[name]
+        idx = list(range(len(ks)))
+        if order == "rev":
+            idx.reverse()
+        elif order == "rnd":
+            rng.shuffle(idx)
+        return "".join("[%s='%s']" % (ks[i][0], vals[i]) for i in idx)
+    for _ in range(n):
+        small = rng.random() < 0.5          # few distinct values: equal first keys, duplicates, EEXIST
+        ops = [sibcomp.op_new(1, None, "sdd:c", b"")]
+        if rng.random() < 0.6:      # >= 4 children: the children hash table exists
+            ops += [sibcomp.op_new(2, 1, "sdd:a", b"x"), sibcomp.op_new(3, 1, "sdd:e", b"x"), sibcomp.op_new(4, 1, "sdd:sll", b"1"), sibcomp.op_new(5, 1, "sdd:sll", b"2")]
+        made, nid = [], 10
+        for _k in range(rng.randint(3, 10)):
+            name = rng.choice(["m2", "m2", "mu", "m3", "t2"])
+            vals = [kv(kt, small) for _, kt in MK_LISTS[name]]
+            if made and rng.random() < 0.25:
+                name, vals = rng.choice(made)[:2]          # an instance that exists already
+            order = rng.choice([None, "rev", "rev", "rnd"])
+            how = rng.random()
+            top = name == "t2"
+            if how < 0.45:
+                ops.append("newlist2,%d,%s,sdd:%s,%s" % (nid, "-" if top else 1, name, hexs(preds(name, vals, order).encode())))
+            elif how < 0.75:
+                path = ("/sdd:t2" if top else "/sdd:c/" + name) + preds(name, vals, order) + rng.choice(["", "/v"])
+                ops.append("newpath,%d,%s,%s,%s" % (nid, rng.choice(["-", "1"]), hexs(path.encode()), hexs(b"val")))
+            else:
+                path = ("/sdd:t2" if top else name) + preds(name, vals, order)
+                if name == "m2" and rng.random() < 0.5:
+                    path += "/in" + preds("in", [kv("u8", small), kv("str", small)], rng.choice([None, "rev"])) + rng.choice(["", "/v"])
+                ops.append("newpath,%d,%s,%s,%s" % (nid, "-" if top else "1", hexs(path.encode()), hexs(b"val")))
+            made.append((name, vals, nid))
+            nid += 1
+            if rng.random() < 0.3 and not top:
+                ops.append(sibcomp.op_new(nid, made[-1][2], "sdd:v", b"q"))
+                nid += 1
+            if rng.random() < 0.5:
+                # search by the whole tuple, predicates in another order; sometimes an absent tuple
+                nm = rng.choice(["m2", "mu", "m3"])
+                cand = [m for m in made if m[0] == nm]
+                vals2 = list(rng.choice(cand)[1]) if cand and rng.random() < 0.7 else [kv(kt, small) for _, kt in MK_LISTS[nm]]
+                anchors = ([2, 3, 4] if len(ops) > 4 and ops[1].startswith("new,2") else []) + [m[2] for m in made if m[0] != "t2"]
+                if anchors:
+                    ops.append("findkeys,%d,sdd:%s,%s" % (rng.choice(anchors), nm, hexs(preds(nm, vals2, rng.choice([None, "rev", "rnd"])).encode())))
+        for _k in range(rng.randint(0, 3)):
+            # lyd_change_term of an automatically numbered node: a key leaf (the instance is re-sorted and re-hashed by the
+            # new tuple) or a plain leaf
+            ops.append("change,%d,%s" % (2000 + rng.randrange(0, 12), hexs(rng.choice(["1", "2", "7", "a", "b"]).encode())))
+        for _k in range(rng.randint(0, 4)):
+            name, vals, i = rng.choice(made)
+            ops.append(rng.choice(["unlink,%d" % i, "free,%d" % i, "ins_child,%d,1" % i if name != "t2" else "unlink,%d" % i,
+                                   "newlist2,%d,%s,sdd:%s,%s" % (nid, "-" if name == "t2" else 1, name, hexs(preds(name, vals, "rev").encode()))]))
+            nid += 1
         out.append(ops)
     return out
 
